@@ -33,7 +33,7 @@ func Spec() *evid.Spec {
 		},
 		MinNontrivial: 100,
 		Lanes: []evid.Lane{
-			{Name: "continuation", Children: evid.Const(16, 16), Cases: evid.Const(45, 1600), TimeoutS: evid.Const(900, 7200),
+			{Name: "continuation", Children: evid.Const(16, 16), Cases: evid.Const(24, 1600), TimeoutS: evid.Const(900, 7200),
 				Setup: func(ch *evid.Child) { ch.Data = qsim.NewEnv() }, Run: runContinuation},
 			{Name: "sync", Children: evid.Const(4, 8), Cases: evid.Const(12, 60), TimeoutS: evid.Const(600, 3600),
 				Setup: func(ch *evid.Child) { ch.Data = qsim.NewEnv() }, Run: runSync},
@@ -51,17 +51,125 @@ func prefix(c *evid.Case, env *qsim.Env, seed int64) (*qsim.Cluster, qsim.Config
 		cfg.N = 7
 	}
 	cfg.MaxSteps = rng.Intn(90 * cfg.N) // any prefix length, so intermediate states are sampled too
+	directed := rng.Intn(5) == 0
+	if directed {
+		// directed prefix "split prepare": all f Byzantine operators active, distinct start values
+		f := (cfg.N - 1) / 3
+		cfg.NumByz, cfg.SilentByz, cfg.ValueMode = f, false, 1
+		cfg.ByzIDs = rng.Perm(cfg.N)[:f]
+		cfg.MaxSteps = rng.Intn(20) // a few random steps after the script
+	}
 	cl := qsim.NewCluster(env, rng, cfg)
 	cl.StartAll()
+	if directed {
+		splitPrepare(cl)
+	}
 	for cl.Step() {
 	}
 	return cl, cfg
 }
 
+// splitPrepare is a directed prefix (parametrised by the rng): one correct operator a becomes prepared on v in round 1
+// (only it receives the prepare quorum), everybody times out, and in round 2 the other correct operators accept and
+// prepare a different value v' that is legitimately justified by a quorum of UNPREPARED round-changes (theirs plus the
+// Byzantine ones; a's prepared round-change arrives late). Commits are lost. Result: correct operators prepared on two
+// values in different rounds - reachable with asynchrony and <= f Byzantine operators that follow the message grammar.
+func splitPrepare(cl *qsim.Cluster) bool {
+	n, h := cl.Cfg.N, cl.Cfg.Height
+	hon, byz := cl.Honest(), cl.ByzNodes()
+	if len(byz) == 0 {
+		return false
+	}
+	isT := func(t specqbft.MessageType) func(f *qsim.Flight) bool {
+		return func(f *qsim.Flight) bool { return f.Msg.Message.MsgType == t && len(f.Msg.Signers) == 1 }
+	}
+	anyF := func(*qsim.Flight) bool { return true }
+	l1, l2 := cl.Nodes[qsim.Leader(n, h, 1)-1], cl.Nodes[qsim.Leader(n, h, 2)-1]
+	// a: a correct operator that does not lead round 2
+	var a *qsim.Node
+	for _, x := range hon {
+		if x != l2 {
+			a = x
+			break
+		}
+	}
+	if a == nil {
+		return false
+	}
+	// round 1 proposal reaches every correct operator
+	if l1.Byz {
+		cl.ByzSendTo(l1, cl.MkProposal(l1, 1, cl.Values[0], nil, nil), "proposal", hon)
+	}
+	cl.DeliverWhere(isT(specqbft.ProposalMsgType), nil)
+	st := a.Inst()
+	if st == nil || st.ProposalAcceptedForCurrentRound == nil {
+		return false
+	}
+	v := st.ProposalAcceptedForCurrentRound.FullData
+	for _, z := range byz {
+		cl.ByzSendTo(z, cl.MkSimple(z, specqbft.PrepareMsgType, 1, qsim.Root(v)), "prepare", []*qsim.Node{a})
+	}
+	// only a receives the prepares
+	cl.DeliverWhere(func(f *qsim.Flight) bool { return f.To == a.ID && isT(specqbft.PrepareMsgType)(f) }, nil)
+	cl.DropWhere(anyF)
+	if a.Inst().LastPreparedRound != 1 {
+		return false
+	}
+	// everybody times out of round 1
+	for _, x := range hon {
+		_ = cl.FireTimeoutFor(x, h, 1)
+	}
+	var others []*qsim.Node
+	for _, x := range hon {
+		if x != a {
+			others = append(others, x)
+		}
+	}
+	// round 2: unprepared round-changes of the others and of the Byzantine operators reach the others (a's is delayed)
+	for _, z := range byz {
+		cl.ByzSendTo(z, cl.MkRoundChange(z, 2, false), "round-change", others)
+	}
+	cl.DeliverWhere(func(f *qsim.Flight) bool {
+		return f.To != a.ID && f.From != a.ID && f.Msg.Message.MsgType == specqbft.RoundChangeMsgType && f.Msg.Message.Round == 2
+	}, nil)
+	if l2.Byz {
+		var vp []byte
+		for _, x := range cl.Values {
+			if string(x) != string(v) {
+				vp = x
+			}
+		}
+		rcs := qsim.UniqueBySigner(cl.SeenOf(specqbft.RoundChangeMsgType, 2), func(m *specqbft.SignedMessage) bool {
+			return !m.Message.RoundChangePrepared()
+		})
+		cl.ByzSendTo(l2, cl.MkProposal(l2, 2, vp, rcs, nil), "proposal justified by unprepared round-changes", others)
+	}
+	cl.DeliverWhere(func(f *qsim.Flight) bool { return f.To != a.ID && isT(specqbft.ProposalMsgType)(f) }, nil)
+	var vp []byte
+	for _, x := range others {
+		if st := x.Inst(); st != nil && st.ProposalAcceptedForCurrentRound != nil && st.Round == 2 {
+			vp = st.ProposalAcceptedForCurrentRound.FullData
+		}
+	}
+	if vp == nil || string(vp) == string(v) {
+		cl.DropWhere(anyF)
+		return false
+	}
+	for _, z := range byz {
+		cl.ByzSendTo(z, cl.MkSimple(z, specqbft.PrepareMsgType, 2, qsim.Root(vp)), "prepare", others)
+	}
+	cl.DeliverWhere(func(f *qsim.Flight) bool { return f.To != a.ID && isT(specqbft.PrepareMsgType)(f) }, nil)
+	// commits and everything else in flight are lost
+	cl.DropWhere(anyF)
+	cl.Act("split-prepare done: n%d prepared on %s in round 1, the other correct operators on %s in round 2", a.ID, v[:2], vp[:2])
+	return true
+}
+
 func preparedValues(cl *qsim.Cluster) map[string]bool {
 	vals := map[string]bool{}
 	for _, n := range cl.Honest() {
-		if st := n.Inst(); st != nil && !st.Decided && st.LastPreparedRound != 0 && st.LastPreparedValue != nil {
+		// decided operators still answer a partial quorum with a round-change carrying their last prepared value
+		if st := n.Inst(); st != nil && st.LastPreparedRound != 0 && st.LastPreparedValue != nil {
 			vals[string(st.LastPreparedValue)] = true
 		}
 	}
@@ -181,6 +289,14 @@ func runContinuation(c *evid.Case) {
 	cut := cl.AbstractState()
 	allDecidedAtCut := cl.AllHonestDecided()
 	pv := preparedValues(cl)
+	undecidedAtCut, decidedAtCut := 0, 0
+	for _, nd := range cl.Honest() {
+		if d, _ := nd.Decided(); d {
+			decidedAtCut++
+		} else {
+			undecidedAtCut++
+		}
+	}
 	nontrivial := (cl.Timeouts > 0 || cl.ByzAccepted > 0) && !allDecidedAtCut
 	budget := cl.F + 3
 	ok, used, log0 := continuation(cl, 0, budget)
@@ -209,9 +325,12 @@ func runContinuation(c *evid.Case) {
 			sig := fmt.Sprintf("N=%d/prepared-values=%d", cfg.N, len(pv))
 			if len(pv) >= 2 {
 				sig = "correct-operators-prepared-on-distinct-values"
+			} else if undecidedAtCut > 0 && undecidedAtCut <= cl.F && decidedAtCut > 0 {
+				// fewer undecided correct operators than a partial quorum (f+1), everybody else decided, the decided messages lost
+				sig = "undecided-correct-operators-fewer-than-partial-quorum-and-decided-messages-lost"
 			}
 			c.Violation("no-timely-continuation-decides", sig,
-				fmt.Sprintf("three canonical timely continuations from the cut (state %s, %d distinct prepared values among undecided correct operators) did not make all correct operators decide within f+3=%d rounds",
+				fmt.Sprintf("three canonical timely continuations from the cut (state %s, %d distinct prepared values among the correct operators) did not make all correct operators decide within f+3=%d rounds",
 					cut, len(pv), budget),
 				map[string]any{"config": cfg, "prefix_seed": seed, "prefix_actions": tail(cl.Acts, 80), "state_at_cut": cut, "continuations": logs, "final_state": cl.AbstractState()})
 		}
